@@ -434,6 +434,33 @@ def run(chk, prog):
     wr = [x for x, lhs, op, rhs in A.assignments_in(mainf["body"]) if (A.declref(lhs) or {}).get("decl") == bound["decl"]]
     incs = [x for x in A.walk(mainf["body"]) if x["k"] == "UnaryOperator" and x["op"] in ("++", "--") and (A.declref(x["c"][0]) or {}).get("decl") == bound["decl"]]
     chk.check(not wr and not incs, "R4", A.loc(mainf, loop), "laststep is never reassigned", "main:laststep-reassigned")
+    # ---- R5: what "the phase and amplitude used" mean in the kick formulas ------------------------------------------------------------------
+    # Both models compute the kick of column x from the RF phase at that column, theta = q(x)*_bl2phase + phase, and from the amplitude as a
+    # factor of the RF voltage.  Hence (a) a change of `phase` acts exactly like moving every column by phase/(_bl2phase*delta0):
+    #   d offset/d phase * _bl2phase*delta0 == d offset/d x,  and (b) the RF part of the kick is homogeneous of degree one in `ampl`
+    # (linear model: the whole kick; sinusoidal model: everything but the constant V0 term, which depends on neither x nor phase).
+    from . import gridmodel as G5
+    s5 = I.scan(rk, hooks=[G5.make_hook()])
+    f5 = I.fold_stores(s5.accesses, "_offset")
+    pick = lambda pol_: [f for f in f5 if any(A.this_field(g) == "_linear" and pol == pol_ for g, pol in f["guards"]
+                                              if isinstance(g, dict) and g.get("k") not in ("SwitchCase", "Catch"))]
+    lin5, sin5 = pick(True), pick(False)
+    A.require(len(lin5) == 1 and len(sin5) == 1, "RFKickMap::_calcKick: linear / sinusoidal offset formulas not found")
+    ph_, am_ = sp.Symbol("phase", real=True), sp.Symbol("ampl", real=True)
+    bl_, d0_ = sp.Symbol("_bl2phase", real=True), G5.AX(0, "delta")
+    for nm, fo in (("linear", lin5[0]), ("sinusoidal", sin5[0])):
+        val, x5 = fo["value"], fo["loops"][0].sym
+        site5 = A.loc(rk, {"line": fo["line"]})
+        A.require(ph_ in val.free_symbols and am_ in val.free_symbols, "RFKickMap::_calcKick (%s): formula does not mention phase and ampl" % nm)
+        lhs5 = sp.simplify(sp.diff(val, ph_) * bl_ * d0_ - sp.diff(val, x5))
+        chk.check(lhs5 == 0, "R5", site5, "%s kick: a phase step acts like a shift of the columns by phase/(_bl2phase*delta): d/dphase*_bl2phase*delta - d/dx = %s" % (nm, lhs5),
+                  "RFKickMap::_calcKick:%s:phase-is-a-shift" % nm)
+        rest = sp.simplify(val.subs(am_, 0))
+        rfpart = sp.simplify(val - rest)
+        hom = sp.simplify(rfpart - am_ * rfpart.subs(am_, 1))
+        const_rest = sp.simplify(sp.diff(rest, x5)) == 0 and sp.simplify(sp.diff(rest, ph_)) == 0 and (nm != "linear" or rest == 0)
+        chk.check(hom == 0 and const_rest, "R5", site5, "%s kick: the amplitude multiplies the whole position- and phase-dependent part of the kick (remainder at ampl=0: %s)"
+                  % (nm, rest), "RFKickMap::_calcKick:%s:amplitude-is-a-factor" % nm)
     # ---- RD: dimensional consistency of the quantities this property depends on (sa/dims.py) ----------------------------------------
     from . import dimrules
     nrd = dimrules.run(chk, prog, "RD")
